@@ -336,6 +336,15 @@ def c10(ctx):
     seed, tier = ctx["seed"], ctx["tier"]
     n = 6 if tier == "quick" else 24
     scs = valid_scens(seed + 10, n)
+    # the same catalogue crop twice, first with keyword overrides and then plain; a water table given
+    # by several string-dated observations (order-sensitive 'Constant' method)
+    base = dict(start="1985/10/15", end="1987/09/30", weather={"kind": "file", "name": "tunis_climate.txt"},
+                soil={"type": "SandyLoam"}, irr={"method": 1, "SMT": [60.0] * 4}, off_season=True)
+    scs.insert(0, dict(base, id=10900, crop={"name": "Wheat", "planting": "10/15", "overrides": {"CCx": 0.80, "HI0": 0.38, "Zmax": 0.9}}))
+    scs.insert(1, dict(base, id=10901, crop={"name": "Wheat", "planting": "10/15", "overrides": {}}))
+    scs.insert(2, dict(base, id=10902, crop={"name": "Wheat", "planting": "10/15", "overrides": {}},
+                       gw={"water_table": "Y", "method": "Constant",
+                           "dates": ["1985-10-15", "1986-02-01", "1986-06-01", "1987-01-01"], "values": [2.0, 1.2, 2.5, 1.5]}))
     viols, evals = [], 0
     # (a) alone, in fresh subprocesses under different hash seeds
     ref = None
